@@ -18,7 +18,7 @@ func verifCells(s string) []vaxis.Cell {
 
 // VerifC14RichTextSize: as VerifC14TextSize for RichText (hard-wrapped).
 func VerifC14RichTextSize() {
-	t := &RichText{Softwrap: false}
+	t := &RichText{Softwrap: zzverif.Param("softwrap") != 0}
 	cells := verifCells(verifContents[zzverif.Choose("content", len(verifContents))])
 	ctx := vxfw.DrawContext{
 		Max:        vxfw.Size{Width: zzverif.Uint16("maxw"), Height: zzverif.Uint16("maxh")},
